@@ -20,7 +20,7 @@ import (
 //	lock / permission / @conc obligations     -> C01 (and C02 for lp obligations) when listed
 //	everything else                           -> the function's other properties
 func propertiesOf(spec *FuncSpec, f Fact) []string {
-	if strings.HasPrefix(f.Tag, "C") {
+	if strings.HasPrefix(f.Tag, "C") && f.Tag != "conc" {
 		return strings.Split(f.Tag, ",")
 	}
 	has := func(p string) bool {
@@ -89,6 +89,8 @@ type KnownFinding struct {
 	Package    string   `json:"package,omitempty"`     // Go package dir relative to the repo ("." for root)
 	Witness    string   `json:"witness,omitempty"`     // body of a Go test function (in-package) that FAILS while the defect is present
 	Imports    []string `json:"imports,omitempty"`
+	Race       bool     `json:"race,omitempty"`        // run the witness under the race detector
+	Advisory   bool     `json:"advisory_witness,omitempty"` // the witness depends on scheduling: a quiet run proves nothing
 	Fixed      string   `json:"fixed,omitempty"`       // "fixed: property=<id> <commit> <what failed>"
 	Obligations []string `json:"obligations,omitempty"`
 }
@@ -176,7 +178,7 @@ func cmdCheck(args []string) int {
 	findingFunc := map[string]string{}
 	for _, k := range keys {
 		modes := []bool{false}
-		if (*prop == "C01" || *prop == "C02") && len(w.Contracts.Funcs[k].Lock) > 0 {
+		if *prop == "C01" || *prop == "C02" {
 			modes = []bool{true}
 		}
 		for _, conc := range modes {
@@ -297,11 +299,16 @@ func cmdCheck(args []string) int {
 	}
 	sort.Slice(witnessToRun, func(i, j int) bool { return witnessToRun[i].ID < witnessToRun[j].ID })
 	wres := runWitnesses(witnessToRun, wd)
+	var raceQuiet []KnownFinding
 	for _, kf := range witnessToRun {
 		switch wres[kf.ID] {
 		case "fails":
 			knownLines = append(knownLines, fmt.Sprintf("KNOWN-FINDING: property=%s %s [%s]", *prop, kf.What, kf.ID))
 		case "passes":
+			if kf.Race || kf.Advisory {
+				raceQuiet = append(raceQuiet, kf)
+				break
+			}
 			// the defect is gone: nothing to report; the carve-out only makes the proof weaker than it could be
 			assumptions["finding "+kf.ID+" no longer reproduces; its carve-out is still assumed in the contract of "+kf.Function] = true
 		default:
@@ -331,7 +338,9 @@ func cmdCheck(args []string) int {
 			// still fails on the real code, is that finding - not a new violation
 			covered := false
 			for _, kf := range witnessToRun {
-				if kf.Property != *prop || wres[kf.ID] != "fails" {
+				// a race witness that happens not to trip the detector in this run proves nothing: for those the
+				// listed obligation name alone identifies the finding
+				if kf.Property != *prop || (wres[kf.ID] != "fails" && !((kf.Race || kf.Advisory) && wres[kf.ID] == "passes")) {
 					continue
 				}
 				for _, o := range kf.Obligations {
@@ -359,6 +368,19 @@ func cmdCheck(args []string) int {
 			if sat && unsat {
 				machinery = append(machinery, fmt.Sprintf("solvers disagree (sat vs unsat) on %s", r.Name))
 			}
+		}
+	}
+	for _, kf := range raceQuiet {
+		hit := false
+		for _, n := range coveredByFinding {
+			for _, o := range kf.Obligations {
+				if o == n {
+					hit = true
+				}
+			}
+		}
+		if hit {
+			knownLines = append(knownLines, fmt.Sprintf("KNOWN-FINDING: property=%s %s [%s] (its scheduling-dependent witness stayed quiet in this run; the listed obligation still fails)", *prop, kf.What, kf.ID))
 		}
 	}
 	for _, l := range knownLines {
